@@ -86,6 +86,23 @@ def check(rep, tier, seed):
             if a != r:
                 bad.append((f"contend process {k} (16 threads, first use): {l[:120]}", a[:300],
                             "a call's result under contention differs from the same call alone"))
+    # (iii) two derived types with the same name in one module (declared in function bodies) with different
+    # histories: whichever is used first, each must produce the bytes of its own declaration
+    F = lambda n, t: {"name": n, "ty": t, "opt": False, "transient": None}
+    job = [F("id", G.P("u32")), F("name", G.P("str")), F("priority", G.P("u8"))]
+    envA = [{"kind": "rec", "name": "Job", "fields": job, "steps": [("add", "priority", "n3")]}]
+    envB = [{"kind": "rec", "name": "Job", "fields": job, "steps": [("add", "name", "b78")]}]
+    val = "(0 n7 b" + b"build".hex() + " n3)"
+    mA, mB = [C._run_codec_side(model, [R.mk(e, ("named", 0), val, "-", "enc")], [f"enc (named 0) {val}"], wd, "same" + t, 1, 600)[0]
+              for e, t in ((envA, "A"), (envB, "B"))]
+    want = {"a": mA.split(" ")[1], "b": mB.split(" ")[1]}
+    for order in ("ab", "ba", "aabb", "bbaa", "abab"):
+        out = C.run([harness, "samename", order], timeout=120).stdout.strip().splitlines()
+        for ch, l in zip(order, out):
+            if l != f"{ch} ok {want[ch]} ; ok 7 build 3":
+                bad.append((f"samename {order}: Job declared in fn job_{ch}", l,
+                            "a type's bytes depend on a same-named type used earlier in the process"))
+    rep.coverage["same_named_types"] = {"orders": 5, "expected": want}
     C.proof_coverage(rep, ob, "C18", ["what the model cannot exhibit: std::sync::Once, memory ordering, data races inside "
                                       "hashbrown reads - real schedules are sampled (16 threads x barrier x fresh processes), "
                                       "not enumerated"])
